@@ -23,11 +23,18 @@ package mikey
 //@ func (p *SubPayloadKeyData) unmarshal
 //@   opt safety-tag=C09
 //@   ensures[C09] err == nil ==> 4 <= ret && ret <= len(buf)
-//@   modifies *
+//@   ensures[C09] err == nil ==> p.KV == SubPayloadKeyDataKVNull || p.KV == SubPayloadKeyDataKVSPI
+//@   ensures[C09] err == nil && p.KV == SubPayloadKeyDataKVNull ==> sameslice(p.SPI, old(p.SPI))
+//@   modifies fields(p), fresh
 
+// Every parsed key-data sub-payload is determined by the bytes alone: one without an SPI in the
+// message has no SPI in the value (nothing is carried over from a previous sub-payload).
 //@ func (p *PayloadKEMAC) unmarshal
+//@   ensures[C09] err == nil ==> forall j :: 0 <= j && j < len(p.SubPayloads) && j >= old(len(p.SubPayloads)) ==> p.SubPayloads[j] != nil && (p.SubPayloads[j].KV == SubPayloadKeyDataKVNull ==> p.SubPayloads[j].SPI == nil)
 //@   loop 1
 //@     invariant 0 <= sn && sn <= len(encrData) && n == 4 + encrDataLen && len(encrData) == encrDataLen && n < len(buf) && encrDataLen >= 0
+//@     invariant len(p.SubPayloads) >= old(len(p.SubPayloads))
+//@     invariant forall j :: 0 <= j && j < len(p.SubPayloads) && j >= old(len(p.SubPayloads)) ==> p.SubPayloads[j] != nil && (p.SubPayloads[j].KV == SubPayloadKeyDataKVNull ==> p.SubPayloads[j].SPI == nil)
 
 //@ func (p *PayloadSP) unmarshal
 //@   loop 1
